@@ -350,7 +350,9 @@ def _execute(case, res):
                     raise Violation('C14/derived-value-wrong/%s' % m.kinds[id(c)],
                                     '%s (%s) view %s: glue %s, expression %s' % (c.label, tree_text(tree), v,
                                                                                   np.asarray(got).reshape(-1)[:6], np.asarray(full).reshape(-1)[:6]))
-            res.log.append(['cmp', [W.arr_digest(d[c]) for c in d.derived_components if id(c) not in m.orphan]])
+            # numpy pow is not bit-reproducible across array alignments, so the event log keeps 10 significant digits
+            res.log.append(['cmp', [W.arr_digest(np.array(['%.10g' % x for x in np.asarray(d[c], dtype=float).reshape(-1)]))
+                                    for c in d.derived_components if id(c) not in m.orphan]])
 
 
 def input_kind(d, m, cid):
